@@ -15,7 +15,8 @@ ASSUMPTIONS = [
 
 IGN = '\x00\x7f'
 ALPHA = ['\\', '{', '}', '$', '&', '\n', '\r', '#', '^', '_', '\x00', ' ', '\t', 'a', '.', '~', '%', '\x7f',
-         '[', ']', '(', ')', '*', '|', '<', 'left', 'big', 'Bigg', 'langle', 'item', 'é', 'a*', '@']
+         '[', ']', '(', ')', '*', '|', '<', 'left', 'big', 'Bigg', 'langle', 'item', 'é', 'a*', '@',
+         'left\\langle', 'Bigg\\rceil', '\ud83d', '\ude02']      # named delimiters; a high and a low surrogate
 
 
 def check_string(s, sub, res=None, count=True):
